@@ -324,6 +324,48 @@ func runC02(c *ctx) {
 			}
 		}
 	}
+	// a rejected upload under the ref of a blob that was removed through a wrapper while a layer below still holds it
+	// (overlay over a populated lower layer): it must stay absent - no trace of the rejected upload, and the removal stands
+	for round := 0; round < c.n(3, 12); round++ {
+		b := newBuilder(fmt.Sprintf("%s/ovl%d", tmp, round))
+		root := &cfgNode{Kind: "overlay", HasDel: true, Detail: kvKinds[round%len(kvKinds)], Kids: []*cfgNode{{Kind: "leaf", Leaf: "memory"}, {Kind: "leaf", Leaf: "memory"}}}
+		if err := b.build(root); err != nil {
+			c.rep.Notes = append(c.rep.Notes, "build overlay: "+err.Error())
+			break
+		}
+		for _, variant := range []string{"truncated", "extended", "bitflip", "unrelated"} {
+			good := mkOffer(40+c.rng.Intn(200), "sha224", "exact") // lives in the lower layer
+			content := good.stream
+			wrong := append([]byte{}, content...) // what is offered under its ref later
+			switch variant {
+			case "truncated":
+				wrong = wrong[:len(wrong)/2]
+			case "extended":
+				wrong = append(wrong, 'x')
+			case "bitflip":
+				wrong[len(wrong)/3] ^= 4
+			default:
+				wrong = mkOffer(len(content), "sha224", "exact").stream
+			}
+			if _, err := blobserver.Receive(ctxb, root.Kids[0].sto, good.ref, bytes.NewReader(content)); err != nil {
+				continue
+			}
+			if err := root.sto.RemoveBlobs(ctxb, []blob.Ref{good.ref}); err != nil {
+				c.rep.Notes = append(c.rep.Notes, "overlay remove: "+err.Error())
+				continue
+			}
+			hub := &hubRec{seen: map[string]int{}}
+			blobserver.GetHub(root.sto).AddReceiveHook(hub.hook)
+			_, rerr := blobserver.Receive(ctxb, root.sto, good.ref, bytes.NewReader(wrong))
+			after, fetched, enumerated := observe(root.sto, good.ref)
+			c.rep.SpecChecks++
+			c.count("rejected upload under a removed ref held below", variant)
+			if rerr == nil || after >= 0 || fetched != nil || enumerated || hub.count(good.refStr) > 0 {
+				c.violation(-1, "c02-overlay-rejected-upload-leaves-trace", fmt.Sprintf("overlay over a populated lower layer, blob removed through the overlay, then %s bytes offered under its ref: err=%v, afterwards stat=%d fetched=%v enumerated=%v notified=%v", variant, rerr, after, fetched != nil, enumerated, hub.count(good.refStr) > 0), nil)
+			}
+		}
+		root.closeAll()
+	}
 	// sizes around MaxBlobSize, on three backends
 	max := blobserver.MaxBlobSize
 	for _, be := range backends {
